@@ -59,11 +59,12 @@ def looks_like_source(s):
     if '\n' not in s and not re.match(r'^[ \t]+[a-z]', s) and not s.startswith(('.', '#')): return False
     return bool(ASM.search(s)) and not s.startswith(('demo', 'test', 'expected', 'with ', 'the ', 'build'))
 
-def extract():
+def extract(maxidx=None):
     res = []
     seen = set()
     for d in sorted(glob.glob(os.path.join(V, 'seeded', 'C*-*'))):
         sid = os.path.basename(d)
+        if maxidx is not None and int(sid.split('-')[1]) > maxidx: continue
         try: text = open(os.path.join(d, 'demo.rs'), encoding='utf-8').read()
         except OSError: continue
         for s in rust_strings(text):
@@ -94,7 +95,7 @@ def compare(entries):
 
 if __name__ == '__main__':
     cmd = sys.argv[1] if len(sys.argv) > 1 else 'run'
-    if cmd == 'extract': extract()
+    if cmd == 'extract': extract(int(sys.argv[2]) if len(sys.argv) > 2 else None)
     else:
         ents = load(sys.argv[2] if len(sys.argv) > 2 else None)
         n, dis, cnt = compare(ents)
